@@ -1,10 +1,22 @@
 (* C06 — TT-cross honours its evaluation budget, index domain and stop contract.
-   Only statements, each closed by [exact].  The model is Model/Cross.v; every theorem quantifies over the
-   objective f (call number -> batch -> values or None), the callback, the numeric kernel (opaque payload P),
-   the configuration C (initial tensor shapes of any dimension / mode sizes / ranks, stop arguments, rank-growth
-   window, cache) and the fuel (number of sweeps allowed to the fuelled loop). *)
-From Coq Require Import List Arith Lia PeanoNat Bool.
-From TV Require Import Num.Ops Model.Cross Proofs.CrossIdx Proofs.CrossGeo Proofs.CrossP.
+   Only statements, each closed by [exact], and non-vacuity Examples.  The model is Model/Cross.v (small-step state
+   machine of teneva.cross); every theorem quantifies over the objective f (call number -> batch -> values or None),
+   the callback, the numeric kernel (opaque payload P), the configuration C (initial tensor of any dimension / mode
+   sizes / ranks, stop arguments, rank-growth window, initial cache) and the fuel (number of sweeps allowed to the
+   fuelled loop).  Hypotheses: Y0_ok (the initial tensor is well formed, d >= 1, sizes and ranks >= 1) and pick_ok
+   (contract of maxvol / maxvol_rect: valid pairwise distinct row numbers, count inside the dr window; property C08).
+
+   Vocabulary (Model/Cross.v, Proofs/CrossInvA.v):
+     k_log c      every invocation of _func_eval, newest first: requested rows ev_I, rows not in the cache ev_new,
+                  outcome Refused (budget) | Skipped (all cached, objective not called) | Called r
+     fcalls c     the calls of the objective, oldest first: (batch, returned value or None)
+     evald q      concatenation of the batches of the calls that returned values
+     hits l       number of requested rows served from the cache in successful invocations
+     ns C         the shape [n_1; ..; n_d];  Forall2 lt r (ns C) = row r has width d and r_k < n_k for every k
+     reach s      s = iterate step k init for some k (every state of every run, finished or not) *)
+From Coq Require Import List Arith Lia PeanoNat Bool ZArith.
+From TV Require Import Num.Ops Model.Cross Proofs.CrossIdx Proofs.CrossGeo Proofs.CrossInvA Proofs.CrossInvB
+  Proofs.CrossInvC Proofs.CrossP Proofs.CrossEx.
 Import ListNotations.
 
 Section C06.
@@ -22,7 +34,9 @@ Variable accuracy : nat -> list (@mcore P) -> list (@mcore P) -> T.
 Variable accdata : nat -> list (@mcore P) -> T.
 Variable C : @cfg T P.
 Notation crossm := (cross_m K isinf f cb pones pdotL pdotR pvals pick pcoreG pfacR erank accuracy accdata C).
+Notation reachm := (reach K isinf f cb pones pdotL pdotR pvals pick pcoreG pfacR erank accuracy accdata C).
 
+(* ---------------------------------------------------------------------------------------------- arguments *)
 (* missing stop criteria are rejected with ValueError; the objective is never consulted (the result does not
    depend on f, and an Err carries no state) *)
 Theorem C06_args_rejected : forall fuel,
@@ -31,9 +45,224 @@ Theorem C06_args_rejected : forall fuel,
   crossm fuel = Err ValueError.
 Proof. exact (args_rejected K isinf f cb pones pdotL pdotR pvals pick pcoreG pfacR erank accuracy accdata C). Qed.
 
+(* ---------------------------------------------------------------------------------------------- result *)
 (* however and whenever the run ends (normal stop; budget or None at any call of either half sweep of any sweep;
    callback), the returned tensor has d cores with the original mode sizes, boundary ranks 1, matching ranks *)
 Theorem C06_interrupted_wf : forall fuel s,
   Y0_ok pones C -> pick_ok pick -> crossm fuel = Ok s -> tt_wf pones C (sY s).
 Proof. exact (interrupted_wf K isinf f cb pones pdotL pdotR pvals pick pcoreG pfacR erank accuracy accdata C). Qed.
+
+(* ---------------------------------------------------------------------------------------------- index domain *)
+(* every request assembled by _func (also a refused one) and every batch handed to the objective is a non-empty
+   list of pairwise distinct rows of width d inside the tensor bounds; at any moment of any run *)
+Theorem C06_requests_in_domain_anytime : forall s,
+  Y0_ok pones C -> pick_ok pick -> reachm s ->
+  Forall (fun e => ev_I e <> [] /\ NoDup (ev_I e) /\ Forall (fun r => Forall2 lt r (ns C)) (ev_I e)) (k_log (sK s)) /\
+  Forall (fun q => fst q <> [] /\ NoDup (fst q) /\ Forall (fun r => Forall2 lt r (ns C)) (fst q)) (fcalls (sK s)).
+Proof.
+  exact (fun s HY Hp => requests_in_domain_anytime K isinf f cb pones pdotL pdotR pvals pick pcoreG pfacR erank
+                          accuracy accdata C HY Hp s).
+Qed.
+Theorem C06_requests_in_domain : forall fuel s,
+  Y0_ok pones C -> pick_ok pick -> crossm fuel = Ok s ->
+  Forall (fun e => ev_I e <> [] /\ NoDup (ev_I e) /\ Forall (fun r => Forall2 lt r (ns C)) (ev_I e)) (k_log (sK s)) /\
+  Forall (fun q => fst q <> [] /\ NoDup (fst q) /\ Forall (fun r => Forall2 lt r (ns C)) (fst q)) (fcalls (sK s)).
+Proof.
+  exact (fun fuel s HY Hp => requests_in_domain K isinf f cb pones pdotL pdotR pvals pick pcoreG pfacR erank
+                               accuracy accdata C HY Hp fuel s).
+Qed.
+
+(* ---------------------------------------------------------------------------------------------- budget *)
+(* info.m = number of indices handed to the objective in calls that returned values, never above m_max;
+   k_nf = number of calls of the objective; info.m_cache = number of requested indices served from the cache *)
+Theorem C06_budget_anytime : forall s,
+  Y0_ok pones C -> pick_ok pick -> reachm s ->
+  k_m (sK s) = length (evald (fcalls (sK s))) /\ k_nf (sK s) = length (fcalls (sK s)) /\
+  k_mc (sK s) = hits (k_log (sK s)) /\ (forall mm, m_max C = Some mm -> k_m (sK s) <= mm).
+Proof.
+  exact (fun s HY Hp => budget_anytime K isinf f cb pones pdotL pdotR pvals pick pcoreG pfacR erank
+                          accuracy accdata C HY Hp s).
+Qed.
+Theorem C06_budget : forall fuel s,
+  Y0_ok pones C -> pick_ok pick -> crossm fuel = Ok s ->
+  k_m (sK s) = length (evald (fcalls (sK s))) /\ k_nf (sK s) = length (fcalls (sK s)) /\
+  k_mc (sK s) = hits (k_log (sK s)) /\ (forall mm, m_max C = Some mm -> k_m (sK s) <= mm).
+Proof.
+  exact (fun fuel s HY Hp => budget K isinf f cb pones pdotL pdotR pvals pick pcoreG pfacR erank
+                               accuracy accdata C HY Hp fuel s).
+Qed.
+
+(* everything the objective was ever asked for - including the batch of a call that returned None - fits into m_max *)
+Theorem C06_asked_within_budget : forall s mm,
+  Y0_ok pones C -> pick_ok pick -> reachm s -> m_max C = Some mm ->
+  length (flat_map fst (fcalls (sK s))) <= mm.
+Proof.
+  exact (fun s mm HY Hp => asked_bound_anytime K isinf f cb pones pdotL pdotR pvals pick pcoreG pfacR erank
+                             accuracy accdata C HY Hp s mm).
+Qed.
+
+(* without cache every requested index is handed to the objective, nothing is skipped, m_cache stays 0 *)
+Theorem C06_budget_nocache_anytime : forall s,
+  Y0_ok pones C -> pick_ok pick -> c_cache C = None -> reachm s ->
+  k_cache (sK s) = None /\ k_mc (sK s) = 0 /\
+  Forall (fun e => ev_new e = ev_I e /\ ev_out e <> Skipped) (k_log (sK s)).
+Proof.
+  exact (fun s HY Hp => budget_nocache_anytime K isinf f cb pones pdotL pdotR pvals pick pcoreG pfacR erank
+                          accuracy accdata C HY Hp s).
+Qed.
+
+(* with a cache (objective returning arrays of the requested length): every request is split exactly into the
+   indices already known (initial cache or evaluated earlier: served from the cache, counted in m_cache by
+   C06_budget) and the others, which alone are handed to the objective; hence every index is evaluated at most once
+   over the whole run and never if it was in the initial cache; the cache holds exactly the initial keys plus the
+   evaluated indices, each evaluated index with the value returned for it, initial entries unchanged *)
+Theorem C06_budget_cache_anytime : forall ch0 s,
+  Y0_ok pones C -> pick_ok pick ->
+  (forall k I y, f k I = Some y -> length y = length I) -> c_cache C = Some ch0 -> reachm s ->
+  exists ch, k_cache (sK s) = Some ch /\
+    log_split ch0 (k_log (sK s)) /\
+    NoDup (evald (fcalls (sK s))) /\ (forall i, In i (evald (fcalls (sK s))) -> cmem i ch0 = false) /\
+    (forall i, cmem i ch = cmem i ch0 || rmem i (evald (fcalls (sK s)))) /\
+    (forall i, cmem i ch0 = true -> cget0 K i ch = cget0 K i ch0) /\
+    (forall I y, In (I, Some y) (fcalls (sK s)) -> forall k, k < length I ->
+                 cget0 K (nth k I []) ch = nth k y (o0 K)).
+Proof.
+  exact (fun ch0 s HY Hp Hlen Hch => budget_cache_anytime K isinf f cb pones pdotL pdotR pvals pick pcoreG pfacR erank
+                                       accuracy accdata C HY Hp Hlen ch0 Hch s).
+Qed.
+
+(* ---------------------------------------------------------------------------------------------- stop contract *)
+(* a finished run reports exactly one reason, and
+     m      a budget is set, the newest request was refused because info.m + (its new indices) > m_max, the objective
+            was not called for it (a refusal is not a call), every earlier request succeeded
+     func   the newest request is a call that returned None (its batch still fitted into the budget), every earlier
+            request succeeded
+     e      0 <= info.e <= e, finite (or, if the order of the carrier had 0 <= -1, pending from the pre-iteration:
+            see C06_stop_e for the clean statement)
+     e_vld  0 <= info.e_vld <= e_vld, finite, for the reported value — or the criterion was already met right after
+            the pre-iteration (sweep count 0) by the value computed on the tensor Yold entering the first sweep; the
+            driver then evaluates one batch, folds the unit factor into core 0 and recomputes the reported number
+     nswp   info.nswp = nswp exactly
+     cb     the callback returned true for this sweep number and the conv rule did not fire
+     conv   m_cache > scale * m *)
+Theorem C06_stop_contract : forall fuel s,
+  Y0_ok pones C -> pick_ok pick -> crossm fuel = Ok s ->
+  exists r, k_stop (sK s) = Some r /\
+  match r with
+  | Sm => exists mm e l, m_max C = Some mm /\ k_log (sK s) = e :: l /\ ev_out e = Refused /\
+                         mm < k_m (sK s) + length (ev_new e) /\ Forall (fun e => ev_good e = true) l
+  | Sfunc => exists e l, k_log (sK s) = e :: l /\ ev_out e = Called None /\ Forall (fun e => ev_good e = true) l /\
+                         (forall mm, m_max C = Some mm -> k_m (sK s) + length (ev_new e) <= mm)
+  | Se => hit K isinf (s_e s) (c_e C) = true \/ (s_nswp s = 0 /\ hit K isinf (minus1 K) (c_e C) = true)
+  | Sevld => hit K isinf (s_evld s) (c_evld C) = true \/
+             (s_nswp s = 0 /\ hit K isinf (accdata_m K accdata C 0 (sYold s)) (c_evld C) = true)
+  | Snswp => c_nswp C = Some (s_nswp s)
+  | Scb => exists g, cb = Some g /\ g (s_nswp s) = true /\ (c_scale C * k_m (sK s) <? k_mc (sK s)) = false
+  | Sconv => (c_scale C * k_m (sK s) <? k_mc (sK s)) = true
+  end.
+Proof.
+  exact (fun fuel s HY Hp => stop_contract K isinf f cb pones pdotL pdotR pvals pick pcoreG pfacR erank
+                               accuracy accdata C HY Hp fuel s).
+Qed.
+
+Theorem C06_stop_e : forall fuel s,
+  Y0_ok pones C -> pick_ok pick -> oleb K (o0 K) (minus1 K) = false ->
+  crossm fuel = Ok s -> k_stop (sK s) = Some Se -> hit K isinf (s_e s) (c_e C) = true.
+Proof.
+  exact (fun fuel s HY Hp => stop_e K isinf f cb pones pdotL pdotR pvals pick pcoreG pfacR erank
+                               accuracy accdata C HY Hp fuel s).
+Qed.
+
+(* priority e_vld > e > nswp of utils._info_appr: after at least one sweep, "e" is reported only if the e_vld criterion
+   is not met by the reported value, "nswp" only if neither the e nor the e_vld criterion is met *)
+Theorem C06_stop_priority : forall fuel s,
+  Y0_ok pones C -> pick_ok pick -> crossm fuel = Ok s -> 1 <= s_nswp s ->
+  (k_stop (sK s) = Some Se -> hit K isinf (s_evld s) (c_evld C) = false) /\
+  (k_stop (sK s) = Some Snswp ->
+   hit K isinf (s_e s) (c_e C) = false /\ hit K isinf (s_evld s) (c_evld C) = false).
+Proof.
+  exact (fun fuel s HY Hp => stop_priority K isinf f cb pones pdotL pdotR pvals pick pcoreG pfacR erank
+                               accuracy accdata C HY Hp fuel s).
+Qed.
+
+(* what "hit" means: a threshold is set, 0 <= v <= threshold, v is not infinite *)
+Theorem C06_hit_spec : forall v thr, hit K isinf v thr = true ->
+  exists t, thr = Some t /\ oleb K (o0 K) v = true /\ oleb K v t = true /\ isinf v = false.
+Proof. exact (hit_spec K isinf). Qed.
+
+(* at any moment only the newest request can be a refusal or a None answer (nothing is requested after either);
+   "func" is reported iff the newest request is a call that returned None, "m" iff it is a refusal *)
+Theorem C06_stop_func_m_iff : forall s,
+  Y0_ok pones C -> pick_ok pick -> reachm s ->
+  match k_log (sK s) with
+  | [] => k_stop (sK s) <> Some Sm /\ k_stop (sK s) <> Some Sfunc
+  | e :: l => Forall (fun e => ev_good e = true) l /\
+      (k_stop (sK s) = Some Sfunc <-> ev_out e = Called None) /\ (k_stop (sK s) = Some Sm <-> ev_out e = Refused)
+  end.
+Proof.
+  exact (fun s HY Hp => stop_log_shape K isinf f cb pones pdotL pdotR pvals pick pcoreG pfacR erank
+                          accuracy accdata C HY Hp s).
+Qed.
+
+(* never more sweeps than nswp *)
+Theorem C06_nswp_bound : forall s t,
+  Y0_ok pones C -> pick_ok pick -> reachm s -> c_nswp C = Some t -> s_nswp s <= t.
+Proof.
+  exact (fun s t HY Hp => nswp_bound K isinf f cb pones pdotL pdotR pvals pick pcoreG pfacR erank
+                            accuracy accdata C HY Hp s t).
+Qed.
+
+(* ---------------------------------------------------------------------------------------------- termination *)
+(* the out-of-fuel value is impossible when nswp is given and fuel > nswp ... *)
+Theorem C06_terminates_nswp : forall t fuel,
+  Y0_ok pones C -> pick_ok pick -> args_ok C = true -> c_nswp C = Some t -> t < fuel ->
+  exists s, crossm fuel = Ok s.
+Proof.
+  exact (fun t fuel HY Hp => terminates_nswp_ok K isinf f cb pones pdotL pdotR pvals pick pcoreG pfacR erank
+                               accuracy accdata C HY Hp t fuel).
+Qed.
+(* ... when a positive budget m is given, with or without cache, whatever the objective answers (every main-loop
+   position consumes a unit of m + m_cache, m <= m_max, and m_cache > scale * m ends the run) ... *)
+Theorem C06_terminates_m : forall mm fuel,
+  Y0_ok pones C -> pick_ok pick -> args_ok C = true -> m_max C = Some mm -> (c_scale C + 1) * mm < fuel ->
+  exists s, crossm fuel = Ok s.
+Proof.
+  exact (fun mm fuel HY Hp => terminates_m_ok K isinf f cb pones pdotL pdotR pvals pick pcoreG pfacR erank
+                                accuracy accdata C HY Hp mm fuel).
+Qed.
+(* ... and without cache already for fuel > m.  For runs with only e / e_vld termination is not a property of the
+   code; the theorems above then speak about `crossm fuel = Ok s` (fuel hypothesis explicit). *)
+Theorem C06_terminates_m_nocache : forall mm fuel,
+  Y0_ok pones C -> pick_ok pick -> args_ok C = true -> c_cache C = None -> m_max C = Some mm -> mm < fuel ->
+  exists s, crossm fuel = Ok s.
+Proof.
+  exact (fun mm fuel HY Hp => terminates_m_nocache_ok K isinf f cb pones pdotL pdotR pvals pick pcoreG pfacR erank
+                                accuracy accdata C HY Hp mm fuel).
+Qed.
 End C06.
+
+(* ---------------------------------------------------------------------------------------------- non-vacuity *)
+(* the hypotheses are satisfiable: a 2 x 3 x 2 tensor with ranks (1,2,2,1), growth window [1,1], a pick routine
+   meeting the maxvol contract, an objective that answers with arrays of the requested length *)
+Example C06_ex_Y0_ok : forall m nswp cache, Y0_ok tt (cfg_ex m nswp cache).
+Proof. exact Y0_ex_ok. Qed.
+Example C06_ex_pick_ok : pick_ok pick_ex.
+Proof. exact pick_ex_ok. Qed.
+Example C06_ex_objective_len : forall k I y, f_ex k I = Some y -> length y = length I.
+Proof. exact f_ex_len. Qed.
+(* 0 <= -1 is false (hypothesis of C06_stop_e) in Z and Qc; for binary64 the same closed computation
+   `oleb OF (o0 OF) (minus1 OF)` gives false, but a statement about primitive floats would put the float primitives
+   under Print Assumptions, so it is not stated here *)
+Example C06_ex_order : oleb OZ (o0 OZ) (minus1 OZ) = false /\ oleb OQc (o0 OQc) (minus1 OQc) = false.
+Proof. vm_compute. split; reflexivity. Qed.
+(* (stop code, m, m_cache, sweeps, calls): nswp = 2 -> "nswp" after exactly 2 sweeps; budget 30 without cache ->
+   "m" with m = 28 <= 30; budget 30 with an empty cache -> all 12 entries evaluated once, then "conv";
+   nswp = 0 -> one batch is evaluated before the run returns (the quirk recorded in DESIGN section 6);
+   fuel 0 is not enough for it *)
+Example C06_ex_runs :
+  summary (cross_ex None (Some 2) None 3) = Some (5, 94, 0, 2, 12) /\
+  summary (cross_ex (Some 30) None None 31) = Some (1, 28, 0, 0, 4) /\
+  summary (cross_ex (Some 30) None (Some []) 200) = Some (7, 12, 82, 2, 2) /\
+  summary (cross_ex None (Some 0) None 1) = Some (5, 4, 0, 0, 1) /\
+  summary (cross_ex None (Some 0) None 0) = None.
+Proof. vm_compute. repeat split. Qed.
